@@ -78,6 +78,13 @@ func genPlan(t *rapid.T) Plan {
 			r.RunMs = r.Interval * rapid.IntRange(2, 3).Draw(t, "slowfactor")
 			r.Jitter = 0
 		}
+		// a twin: the same kind and cadence as an earlier registration, another run time (functions registered
+		// alike are still independent of each other)
+		if i > 0 && rapid.IntRange(0, 3).Draw(t, "twin") == 0 {
+			o := p.Regs[rapid.IntRange(0, i-1).Draw(t, "twinof")]
+			r.Kind, r.Interval, r.Jitter = o.Kind, o.Interval, o.Jitter
+			r.RunMs = rapid.SampledFrom([]int{0, 1, o.Interval * 2, o.Interval * 5}).Draw(t, "twinrun")
+		}
 		p.Regs = append(p.Regs, r)
 	}
 	m := rapid.IntRange(0, 12).Draw(t, "ntrigs")
